@@ -58,6 +58,19 @@ def detRowOk (r : PDef × (PDef ⊕ Err)) : Bool :=
 one-element lists) -/
 theorem gen_dets_ok : Gen.Ser.detRows.all detRowOk = true := by decide
 
+def mergeRowOk (r : List (List Char × PVals) × (PDef ⊕ Err)) : Bool :=
+  match mapE (fun kv => fromMapping env0 kv.1 kv.2) r.1 with
+  | .error _ => false
+  | .ok its =>
+    match toPlainDet (.node (its.map .item) false), r.2 with
+    | .ok q, .inl e => q.beq e
+    | .error x, .inr c => x == c
+    | _, _ => false
+
+/-- … and on detections whose items are written under colliding keys (the key-merging loop: fusion into
+`|all`, refusal of value lists and of negated items) -/
+theorem gen_merge_ok : Gen.Ser.mergeRows.all mergeRowOk = true := by decide
+
 /-- the two accepted date spellings -/
 theorem gen_date_regexps : Gen.Ser.dateRegexps =
     ["([1-3][0-9][0-9][0-9])-([01][0-9])-([0-3][0-9])", "([1-3][0-9][0-9][0-9])/([01]?[0-9])/([0-3]?[0-9])"] := by decide
